@@ -70,6 +70,9 @@ def make_obj(objkind, span, n):
         c.add_variable('K', [10 + i for i in range(n)])
         c.add_variable('Q', [i % 2 == 0 for i in range(n)])
         c.add_variable('S', [chr(97 + i) for i in range(n)] if n else np.array([], dtype='<U1'))
+        c.add_variable('I32', [100 + i for i in range(n)], dtype=np.int32)
+        c.add_variable('U8', [200 + i for i in range(n)], dtype=np.uint8)
+        c.add_variable('F32', [0.5 + i for i in range(n)], dtype=np.float32)
         return c
     cls = PModel if objkind.startswith('pmodel') else _MODEL
     m = cls(span, X=[1.0 + i for i in range(n)], Y=[0.5 * i for i in range(n)])
@@ -94,7 +97,7 @@ FILLS = [
     ('keyword', {'K': -1, 'F': 8.5, 'Y': -2.0, 'status': 'X'}),
     ('both', {'fill_value': 7, 'S': 'q', 'X': 0.25, 'iterations': 99}),
     ('unknown', {'fill_value': 0, 'Nope': 1}),
-    ('falsy-keywords', {'fill_value': 7, 'K': 0, 'F': 0.0, 'S': '', 'Q': False, 'X': 0.0, 'Y': 0, 'status': '', 'iterations': 0}),
+    ('falsy-keywords', {'fill_value': 7, 'K': 0, 'F': 0.0, 'S': '', 'Q': False, 'I32': 0, 'X': 0.0, 'Y': 0, 'status': '', 'iterations': 0}),
 ]
 
 
@@ -137,7 +140,7 @@ def run_case(case):
     if objkind != 'container':
         kwargs = {k: v for k, v in kwargs.items() if k in ('fill_value', 'Nope', 'status', 'iterations', 'X', 'Y')}
     else:
-        kwargs = {k: v for k, v in kwargs.items() if k in ('fill_value', 'Nope', 'F', 'K', 'S', 'Q')}
+        kwargs = {k: v for k, v in kwargs.items() if k in ('fill_value', 'Nope', 'F', 'K', 'S', 'Q', 'I32')}
     if strict is not None:
         kwargs['strict'] = strict
     if case.get('obj_strict'):
@@ -147,6 +150,13 @@ def run_case(case):
     unknown = [k for k in kwargs if k not in ('fill_value', 'strict') and k not in obj.index]
     eff_strict = obj.strict if strict is None else strict
     out = []
+    if case.get('after'):
+        # a previous reindex call on the same object (other keywords, other span) must leave no trace in this one
+        try:
+            obj.reindex(mk_span(tk_new, [4, 0]), **dict(dict(FILLS)[case['after']]) if objkind == 'container' else
+                        {k: v for k, v in dict(FILLS)[case['after']].items() if k in ('fill_value', 'status', 'iterations', 'X', 'Y')})
+        except Exception:
+            pass
     try:
         res = obj.reindex(new_span, **kwargs)
         exc = None
@@ -295,6 +305,13 @@ def run_block(block, tier, seed):
                     acc.nontrivial += bool(new)
                     for key, exp, obs, what in v:
                         acc.violation(key, case, exp, obs, what)
+            if fill_name in ('none', 'fill_value') and len(new) == 2 and objkind in ('container', 'model-partly') and block['types'][0] in ('list_int', 'pd_year'):
+                for after in ('keyword', 'both', 'falsy-keywords'):
+                    case = dict(kind='reindex', obj=objkind, types=types, old=old, new=new, fill=fill_name, strict=None, obj_strict=False, after=after)
+                    acc.evaluations += 1
+                    acc.nontrivial += 1
+                    for key, exp, obs, what in run_case(case):
+                        acc.violation(key + ':after-earlier-call', case, exp, obs, what)
     acc.outcome((objkind, fill_name))
     acc.sample(dict(obj=objkind, types=types, old=[0, 1], new=[1, 3, 1], fill=fill_name), limit=1)
     return acc
